@@ -158,14 +158,20 @@ fn start(n: usize) -> Srv {
         *g = Gate::default();
     }
     let permit = Permit::new();
-    let b = HttpServerBuilder::new().max_conns(n).permit(permit.new_sub());
+    // every other builder option is set after max_conns: none of them may disturb the limit
+    let b = HttpServerBuilder::new()
+        .max_conns(n)
+        .listen_addr("127.0.0.1:0".parse().unwrap())
+        .small_body_len(64 * 1024)
+        .receive_large_bodies(&super::c06::scratch_dir())
+        .permit(permit.new_sub());
     let (addr, stopped) = executor().block_on(b.spawn(handler)).unwrap();
     Srv { addr, permit: Some(permit), stopped }
 }
 
 fn connect(addr: SocketAddr) -> Option<TcpStream> {
     let c = TcpStream::connect_timeout(&addr, Duration::from_secs(5)).ok()?;
-    c.set_read_timeout(Some(Duration::from_secs(15))).ok()?;
+    c.set_read_timeout(Some(Duration::from_secs(6))).ok()?;
     c.set_write_timeout(Some(Duration::from_secs(15))).ok()?;
     let _ = c.set_nodelay(true);
     Some(c)
@@ -197,7 +203,12 @@ fn read_response(c: &mut TcpStream) -> String {
     }
 }
 
+fn tick() {
+    crate::PROGRESS.fetch_add(1, std::sync::atomic::Ordering::SeqCst);
+}
+
 fn wait_gauge(pred: impl Fn(&Gate) -> bool, dur: Duration) -> bool {
+    tick();
     let (m, cv) = gate();
     let deadline = Instant::now() + dur;
     let mut g = m.lock().unwrap();
@@ -222,6 +233,7 @@ fn release(id: &str) {
 }
 
 fn stop(mut s: Srv) -> bool {
+    tick();
     drop(s.permit.take());
     release_all();
     s.stopped.recv_timeout(Duration::from_secs(3)).is_ok()
@@ -416,6 +428,10 @@ pub fn case_emfile(ctx: &mut Ctx, n: &str, rounds: &str) {
     let obs = guard(move || {
         let (log_tx, log_rx) = std::sync::mpsc::sync_channel::<servlin::log::internal::LogEvent>(10_000);
         let log_guard = servlin::log::set_global_logger(log_tx);
+        // drained concurrently: a loop that logs without pause must not be able to block the harness on the logger lock
+        let log_counter = std::thread::spawn(move || {
+            log_rx.iter().filter(|e| { let mut b = Vec::new(); e.write_jsonl(&mut b).is_ok() && String::from_utf8_lossy(&b).contains("too many open files") }).count()
+        });
         let srv = start(nn);
         if !set_nofile_soft(192) { return "no-prlimit".to_string(); }
         let mut starved = 0;
@@ -446,7 +462,7 @@ pub fn case_emfile(ctx: &mut Ctx, n: &str, rounds: &str) {
         let max = gate().0.lock().unwrap().max;
         let stopped = stop(srv);
         drop(log_guard);
-        let logged = log_rx.try_iter().filter(|e| { let mut b = Vec::new(); e.write_jsonl(&mut b).is_ok() && String::from_utf8_lossy(&b).contains("too many open files") }).count();
+        let logged = log_counter.join().unwrap_or(0);
         format!("starved={starved} served={served} emfile_logged={} full={} fresh={fresh_ok} max={max} stopped={}", u8::from(logged >= rr), u8::from(full), u8::from(stopped))
     });
     ctx.emit("c12e", &[n, rounds], &obs);
@@ -456,6 +472,45 @@ pub fn run_emfile(ctx: &mut Ctx) {
     let cases: &[(usize, usize)] = if ctx.thorough() { &[(1, 1), (1, 3), (2, 2), (3, 1), (4, 2)] } else { &[(1, 1), (2, 2)] };
     for (i, (n, r)) in cases.iter().enumerate() {
         if ctx.mine(i as u64 + 1) { case_emfile(ctx, &n.to_string(), &r.to_string()); }
+    }
+}
+
+
+/// c13e: revocation while accept() keeps failing (descriptor table full, a client waiting in the backlog).
+pub fn case_shutdown_emfile(ctx: &mut Ctx, n: &str, delay: &str) {
+    let nn: usize = n.parse().unwrap();
+    let delay_ms: u64 = delay.parse().unwrap();
+    let obs = guard(move || {
+        let mut srv = start(nn);
+        if !set_nofile_soft(192) { return "no-prlimit".to_string(); }
+        let mut dummies: Vec<std::fs::File> = Vec::new();
+        while let Ok(f) = std::fs::File::open("/dev/null") { dummies.push(f); if dummies.len() > 4096 { break; } }
+        dummies.pop();
+        let mut c = match TcpStream::connect_timeout(&srv.addr, Duration::from_secs(5)) {
+            Ok(c) => c,
+            Err(e) => { drop(dummies); let _ = set_nofile_soft(20000); return format!("noconn:{e}"); }
+        };
+        let _ = c.write_all(b"GET /ok HTTP/1.1\r\n\r\n");
+        let _ = c.set_read_timeout(Some(Duration::from_millis(150 + delay_ms)));
+        let starved = read_response(&mut c).starts_with("timeout");
+        let early = srv.stopped.try_recv().is_ok();
+        let t0 = Instant::now();
+        drop(srv.permit.take());
+        let stopped = srv.stopped.recv_timeout(Duration::from_secs(4)).is_ok();
+        let took = t0.elapsed().as_millis();
+        drop(dummies);
+        let _ = set_nofile_soft(20000);
+        let late = match TcpStream::connect_timeout(&srv.addr, Duration::from_millis(500)) { Err(_) => "refused", Ok(_) => "accepted" };
+        release_all();
+        format!("starved={} early={} stopped={} bounded={} late={late}", u8::from(starved), u8::from(early), u8::from(stopped), u8::from(stopped && took < 2500))
+    });
+    ctx.emit("c13e", &[n, delay], &obs);
+}
+
+pub fn run_shutdown_emfile(ctx: &mut Ctx) {
+    let cases: &[(usize, u64)] = if ctx.thorough() { &[(1, 0), (2, 100), (3, 300), (1, 450), (4, 600)] } else { &[(1, 0), (2, 300)] };
+    for (i, (n, d)) in cases.iter().enumerate() {
+        if ctx.mine(i as u64 + 1) { case_shutdown_emfile(ctx, &n.to_string(), &d.to_string()); }
     }
 }
 
